@@ -71,6 +71,21 @@ def busy_scripts(seed, tier):
     return "\n".join(lines) + "\n", cfgs
 
 
+def crowd_scripts(seed, tier):
+    """Dozens of requests parked at the same time behind main's write lock (main unlocks only when every worker is parked): the wait
+    queue holds 70-85 entries at once (every writer is an entry of its own, consecutive readers share one)."""
+    rnd = random.Random("%s-crowd" % seed)
+    lines, cfgs = [], {}
+    plans = [["Wr"] * 70, [("Wr" if k % 2 == 0 else "Rg") for k in range(84)]]
+    if tier == "thorough":
+        plans += [[rnd.choice(["Wr", "Wg", "Rr", "WrRr"]) for _ in range(85)] for _ in range(6)]
+    for i, progs in enumerate(plans):
+        cfg = "n=%d mode=random hold=2 barrier=0 prog=%s seed=%d stay=1 stayden=2 quiet=1 timeouts=0" % (len(progs), ":".join(progs), rnd.randrange(1, 2 ** 31))
+        lines += ["X crowd%d %s" % (i, cfg), "E"]
+        cfgs["crowd%d" % i] = cfg
+    return "\n".join(lines) + "\n", cfgs
+
+
 # ------------------------------------------------------------------------------------------
 # model checking
 # ------------------------------------------------------------------------------------------
@@ -336,6 +351,9 @@ def check(pid, tier, seed):
         bs, bcf = busy_scripts(seed, tier)
         yruns.update(common.run_harness(exe, bs))
         ycfgs.update(bcf)
+    cs, ccf = crowd_scripts(seed, tier)
+    yruns.update(common.run_harness(exe, cs))
+    ycfgs.update(ccf)
 
     execs = {}
     src = {}
@@ -351,7 +369,15 @@ def check(pid, tier, seed):
 
     def val(mode, subset=None):
         ex = execs if subset is None else {k: execs[k] for k in subset}
-        acc, rej, st = tracecheck.validate(SPEC, "RWLockTrace.tla", "RWLockTrace_%s.cfg" % mode, ex)
+        wide = {k: v for k, v in ex.items() if k.startswith("crowd")}     # dozens of threads: the trace specification's wider thread set
+        ex = {k: v for k, v in ex.items() if k not in wide}
+        acc, rej, st = tracecheck.validate(SPEC, "RWLockTrace.tla", "RWLockTrace_%s.cfg" % mode, ex) if ex else ([], {}, {"executions": 0, "distinct_traces": 0, "tlc_states_generated": 0, "tlc_wall_s": 0.0})
+        if wide:
+            acc2, rej2, st2 = tracecheck.validate(SPEC, "RWLockTrace.tla", "RWLockTrace_%s_wide.cfg" % mode, wide)
+            acc = list(acc) + list(acc2)
+            rej = dict(rej, **rej2)
+            st = dict(st, executions=st["executions"] + st2["executions"], distinct_traces=st["distinct_traces"] + st2["distinct_traces"],
+                      tlc_states_generated=st["tlc_states_generated"] + st2["tlc_states_generated"], tlc_wall_s=round(st["tlc_wall_s"] + st2["tlc_wall_s"], 2))
         log("[%s] trace validation mode=%s: %d executions (%d distinct), %d rejected, TLC %d states %.1fs" %
             (pid, mode, st["executions"], st["distinct_traces"], len(rej), st["tlc_states_generated"], st["tlc_wall_s"]))
         return acc, rej, st
